@@ -85,6 +85,8 @@ pub enum Call {
     IjToS(f64, f64, usize, u64),
     /// a5::core::cell::a5cell_contains_point(deserialize(id), (lon, lat))
     Contains(u64, f64, f64),
+    /// a5::core::coordinate_transforms::from_lon_lat((lon, lat)) followed by to_cartesian
+    FromLonLat(f64, f64),
 }
 
 fn bits(p: &LonLat) -> String {
@@ -109,6 +111,11 @@ pub fn exec(c: &Call) -> String {
         Call::Area(r) => format!("{:016x} {}", a5::cell_area(*r).to_bits(), a5::get_num_cells(*r)),
         Call::Anchor(sv, n, o) => format!("{:?}", a5::core::hilbert::s_to_anchor(*sv, *n, crate::tables::ori_of(*o))),
         Call::IjToS(i, j, n, o) => format!("{:?}", a5::core::hilbert::ij_to_s(a5::coordinate_systems::IJ::new(*i, *j), *n, crate::tables::ori_of(*o))),
+        Call::FromLonLat(lon, lat) => {
+            let sp = a5::core::coordinate_transforms::from_lon_lat(LonLat::new(*lon, *lat));
+            let c = a5::core::coordinate_transforms::to_cartesian(sp);
+            format!("{:016x}:{:016x} {:016x}:{:016x}:{:016x}", sp.theta().get().to_bits(), sp.phi().get().to_bits(), c.x().to_bits(), c.y().to_bits(), c.z().to_bits())
+        }
         Call::Contains(id, lon, lat) => format!(
             "{:?}",
             a5::core::serialization::deserialize(*id).and_then(|c| a5::core::cell::a5cell_contains_point(&c, LonLat::new(*lon, *lat))).map(|x| x.to_bits())
@@ -276,6 +283,19 @@ pub fn search_c13(rng: &mut Rng, thorough: bool) -> SearchResult {
                         calls.push(Call::Lookup(ll.longitude(), ll.latitude(), rng.range_i(0, 4) as i32));
                     }
                 }
+            } else if rng.chance(1, 8) {
+                // nearly equal arguments back to back (one or a few ulps, 1e-11 degrees apart): a memo that compares
+                // its key with a tolerance, or by a rounded value, answers the second call with the first result
+                let (lon, lat) = uniform_point(rng);
+                let lat = lat.clamp(-89.0, 89.0);
+                let res = rng.range_i(0, 29) as i32;
+                for step in [0.0, 1e-11, -3e-12, 7e-11] {
+                    let (lo, la) = (lon + step * 0.5, lat + step);
+                    calls.push(match rng.below(3) { 0 => Call::FromLonLat(lo, la), 1 => Call::Lookup(lo, la, res), _ => Call::FromLonLat(lon, la) });
+                }
+                let la2 = f64::from_bits(lat.to_bits() + 1);
+                calls.push(Call::FromLonLat(lon, lat));
+                calls.push(Call::FromLonLat(lon, la2));
             } else if rng.chance(1, 6) {
                 field_variations(rng, &mut calls);
             } else if rng.chance(1, 12) {
@@ -321,7 +341,7 @@ pub fn search_c13(rng: &mut Rng, thorough: bool) -> SearchResult {
             let c2 = c.clone();
             let fresh = thread::spawn(move || exec(&c2)).join().unwrap();
             r.evaluations += 1;
-            if matches!(c, Call::Lookup(..) | Call::Centre(..) | Call::Boundary(..) | Call::Nearest(..) | Call::Anchor(..) | Call::IjToS(..) | Call::Contains(..)) {
+            if matches!(c, Call::Lookup(..) | Call::Centre(..) | Call::Boundary(..) | Call::Nearest(..) | Call::Anchor(..) | Call::IjToS(..) | Call::Contains(..) | Call::FromLonLat(..)) {
                 r.nontrivial += 1;
             }
             if &fresh != want {
@@ -349,6 +369,57 @@ pub fn search_c13(rng: &mut Rng, thorough: bool) -> SearchResult {
             }
         }
         r.count("concurrent_rounds");
+    }
+    // order of equal keys: a complete sibling group plus a word that ties with a member in compact's hierarchy order,
+    // compacted in fresh threads after different numbers of earlier hash-set creations (std's per-thread hasher
+    // seeds differ), must always give the same answer
+    {
+        let base = a5::get_res0_cells().unwrap_or_default();
+        for f in 0..12u64 {
+            let mut l = base.clone();
+            l.push(((5 * f) << 58) | 1);
+            let mut results: Vec<String> = Vec::new();
+            for warm in 0..6usize {
+                let l2 = l.clone();
+                let b2 = base.clone();
+                results.push(
+                    thread::spawn(move || {
+                        for _ in 0..warm {
+                            let _ = a5::compact(&b2);
+                        }
+                        format!("{:?}", a5::compact(&l2))
+                    })
+                    .join()
+                    .unwrap_or_else(|_| "PANIC".into()),
+                );
+                r.evaluations += 1;
+            }
+            if results.iter().any(|x| x != &results[0]) {
+                r.viol("history:compact-ties", format!("compact({:x?}) gives different answers in fresh threads after 0..5 earlier compactions: {} vs {}", l, &results[0][..results[0].len().min(120)], results.iter().find(|x| *x != &results[0]).map(|x| &x[..x.len().min(120)]).unwrap_or("")));
+            }
+        }
+    }
+    // one long-lived instance of the public frame lookup: the 12 000th call must answer like the first
+    {
+        use a5::projections::crs::CRS;
+        if let Ok(mut crs) = CRS::new() {
+            let vs: Vec<a5::coordinate_systems::Cartesian> = crs.verif_vertices().clone();
+            let first: Vec<String> = vs.iter().map(|v| format!("{:?}", crs.get_vertex(*v).map(|c| (c.x().to_bits(), c.y().to_bits(), c.z().to_bits())))).collect();
+            let mut bad = None;
+            'outer: for round in 0..200 {
+                for (k, v) in vs.iter().enumerate() {
+                    let now = format!("{:?}", crs.get_vertex(*v).map(|c| (c.x().to_bits(), c.y().to_bits(), c.z().to_bits())));
+                    r.evaluations += 1;
+                    if now != first[k] {
+                        bad = Some((round, k, now));
+                        break 'outer;
+                    }
+                }
+            }
+            if let Some((round, k, now)) = bad {
+                r.viol("history:crs", format!("CRS::get_vertex(vertex {}) on one instance: first call {} ; call number {} -> {}", k, first[k], 62 * (round + 1) + k + 1, now));
+            }
+        }
     }
     // the invalid-origin alias (fixed defect D11): inverse with origin 12 must not depend on history
     {
